@@ -213,6 +213,32 @@ func tuples(cands []Term, n int, limit int) [][]Term {
 
 // memberGoal: cell (rid, addr) belongs to one of the families (witness form).
 func (fx *FuncCtx) memberGoal(st *State, fams []famInst, rid, addr Term, extra []Term) Term {
+	// a small goal first: witnesses from the access itself, the loop counters, the contract's
+	// hints and the polynomial decomposition; if that is provable quickly it is the obligation
+	// (small queries are the stable ones), otherwise the full witness search
+	if fx.discard == 0 {
+		if g := fx.memberGoalLevel(st, fams, rid, addr, extra, true); g.S == "true" || (g.S != "false" && fx.proves(st.hypTerms(), g, fx.eng.quickTimeoutMs)) {
+			return g
+		}
+	}
+	return fx.memberGoalLevel(st, fams, rid, addr, extra, false)
+}
+
+func (fx *FuncCtx) primaryCands(st *State, extra []Term) []Term {
+	all := fx.witnessCands(st, extra)
+	n := len(extra) + len(fx.loops)
+	if fx.con != nil && fx.inlineDepth == 0 {
+		n += len(fx.con.Witnesses)
+	}
+	if n > len(all) {
+		n = len(all)
+	}
+	out := append([]Term{}, all[:n]...)
+	out = append(out, IntLit(0))
+	return out
+}
+
+func (fx *FuncCtx) memberGoalLevel(st *State, fams []famInst, rid, addr Term, extra []Term, primary bool) Term {
 	var alts []Term
 	for _, f := range fams {
 		same := Eq(rid, f.sl.Rid)
@@ -228,7 +254,12 @@ func (fx *FuncCtx) memberGoal(st *State, fams []famInst, rid, addr Term, extra [
 			alts = append(alts, And(same, f.cond, Eq(rel, f.index)))
 			continue
 		}
-		cands := fx.witnessCands(st, append(append([]Term{}, extra...), rel))
+		var cands []Term
+		if primary {
+			cands = fx.primaryCands(st, append(append([]Term{}, extra...), rel))
+		} else {
+			cands = fx.witnessCands(st, append(append([]Term{}, extra...), rel))
+		}
 		// reversed traversal: hi-1-e (+lo) for the explicit hints
 		for i := range f.vars {
 			if len(f.vars) == 1 || !mentionsAnyVar(f.hi[i], f.vars) {
@@ -239,7 +270,7 @@ func (fx *FuncCtx) memberGoal(st *State, fams []famInst, rid, addr Term, extra [
 				}
 			}
 		}
-		if len(f.vars) == 1 {
+		if len(f.vars) == 1 && !primary {
 			// sums and differences of pairs (inner counters offset by outer ones)
 			base := cands
 			if len(base) > 11 {
@@ -259,7 +290,11 @@ func (fx *FuncCtx) memberGoal(st *State, fams []famInst, rid, addr Term, extra [
 			inr, idx := f.at(ws)
 			alts = append(alts, And(same, inr, Eq(rel, idx)))
 		}
-		for _, ws := range tuples(cands, len(f.vars), 400) {
+		lim := 400
+		if primary {
+			lim = 40
+		}
+		for _, ws := range tuples(cands, len(f.vars), lim) {
 			inr, idx := f.at(ws)
 			alts = append(alts, And(same, inr, Eq(rel, idx)))
 		}
